@@ -50,13 +50,17 @@ def build_vcs(prop, known, log):
     # ---- lemmas -----------------------------------------------------------------
     defs = [h for (_n, h, _l) in prop.hints]
     proven_closed = []
+    closed_by_lemma = {}
     for lem in prop.lemmas:
-        L = LemmaCtx(lem.name)
+        L = LemmaCtx(lem.name, prop)
         lem.build(L)
+        usable = proven_closed if not lem.uses else [f for u in lem.uses for f in closed_by_lemma.get(u, [])]
         for nm, hyps, goal in L.vcs:
-            smt = to_smt2(hyps, goal, extra=defs + proven_closed, always=prop.distinct_axioms())
+            interp = prop.theory.interp_axioms() if prop.abstract_nl else []
+            smt = to_smt2(hyps, goal, extra=defs + usable + interp, always=prop.distinct_axioms())
             vcs.append(VC(f"lemma/{lem.name}.{nm}", smt, "lemma", "lemma:" + lem.name))
-        proven_closed += L.closed
+        proven_closed = proven_closed + L.closed
+        closed_by_lemma[lem.name] = list(L.closed)
     prop.lemma_closed = proven_closed
 
     # ---- functions ----------------------------------------------------------------
@@ -71,7 +75,10 @@ def build_vcs(prop, known, log):
         info["paths"] += ex.paths
         info["pruned_paths"] += ex.pruned
         info["return_paths"][spec.ident] = ex.return_paths
-        extra_all = defs + proven_closed
+        if spec.hints is None:
+            extra_all = defs + proven_closed
+        else:
+            extra_all = defs + [f for u in spec.hints for f in closed_by_lemma[u]]
         by_name = {}
         for o in obs:
             by_name.setdefault(o.name, []).append(o)
@@ -181,13 +188,16 @@ def check_property(pid, tier="quick", seed=0, verbose=True):
             pv = VC(f"{ident}/probe.false_is_not_provable", s_.to_smt2(), "probe", ident, required=False, note="vacuity probe: must not be unsat")
             pv.is_probe = True
             vcs.append(pv)
-    tasks = [(i, v.smt2, (5000 if getattr(v, "is_probe", False) else tmo), ("probe" if getattr(v, "is_probe", False) else True)) for i, v in enumerate(vcs)]
+    tasks = [(i, v.smt2, (3000 if getattr(v, "is_probe", False) else tmo), ("probe" if getattr(v, "is_probe", False) else True)) for i, v in enumerate(vcs)]
     t0 = time.time()
     results = solve_all(tasks)
     solver_time = sum(r.get("total_time", 0) for r in results)
     for r in results:
         vcs[r["key"]].result = r
     log(f"[{pid}] solved {len(vcs)} VCs in {time.time() - t0:.1f}s wall ({solver_time:.1f}s solver)")
+    for v in sorted(vcs, key=lambda v: -v.result.get("total_time", 0))[:4]:
+        if v.result.get("total_time", 0) > 2:
+            log(f"    slow: {v.name} {v.result['result']} {v.result.get('total_time', 0):.1f}s {v.result.get('attempts')}")
 
     # vacuity: at least one satisfiable return path per function
     vac_errors = [f"{v.name}: hypotheses + hints are contradictory" for v in vcs if getattr(v, "is_probe", False) and v.result["result"] == "unsat"]
@@ -233,7 +243,9 @@ def check_property(pid, tier="quick", seed=0, verbose=True):
 
     # obligations present in the baseline but missing now
     names_now = {v.name for v in vcs}
-    missing = [n for n in baseline if n not in names_now and not n.endswith("#unrestricted")]
+    # (safety / call-site obligations are named by line and may legitimately disappear; the
+    #  obligations that carry the property -- postconditions, invariants, lemmas -- may not)
+    missing = [n for n in baseline if n not in names_now and not n.endswith("#unrestricted") and ("/post." in n or ".inv." in n or n.startswith("lemma/") or "/raises." in n or "/frame." in n)]
     if missing and not os.environ.get("VF_UPDATE_BASELINE"):
         log(f"UNDECIDED property={pid}: obligations of the baseline were not generated (structure changed): {missing[:5]}")
         write_evidence(pid, tier, seed, prop, vcs, info, time.time() - t_start, undecided="missing obligations: " + ", ".join(missing[:8]), solver_time=solver_time)
